@@ -39,9 +39,17 @@ inside send() (back pressure, queued for / holding the transport's send lock) or
 other calls are outstanding and further calls follow. Log line `abort t` = the model's `AOp.abort` (the frame disappears,
 the object is untouched). Oracle: the surviving calls complete with the answers to their own requests, later calls never
 with anybody else's, and - in every family - two calls outstanding at the same time under one call id is a violation.
+Long histories (harness/c10_long.py, compact steps `churn` / `strays` of rmc_client_sim): one or several calls stay outstanding
+while 1 .. 70000 (thorough: 140000) further call ids are consumed on the connection by short calls of other tasks and one-way
+requests, then their responses arrive / the connection closes / both, then further calls follow (`gen_long`); 1 .. 1025
+(thorough: 70000) consecutive responses nobody waits for - duplicates, ids of one-way requests, ids never issued - as one burst,
+spaced out, cut into runs by genuine responses or by short calls, on an idle connection and with calls outstanding, followed by the
+genuine responses and by further calls (`gen_bursts`). Same oracle, same line-by-line model replay; in addition a caller that hangs
+because the receive loop is gone (ended or raised on a WELL-FORMED response although nothing closed the connection) is a violation.
 """
 import copy, itertools, struct, multiprocessing, os, pickle, re, subprocess, sys
 import rmc_client_sim as R
+import c10_long
 
 LEVEL = "proof"
 M32 = 0xFFFFFFFF
@@ -707,12 +715,30 @@ def oracle(sim):
     closed_at = next((i for i, l in enumerate(log) if l in ("eof", "cleanup")), None)
     crash_at = next((i for i, l in enumerate(log) if l == "loopcrash"), None)
     end = len(log)
+    # the receive loop (RMCClient.start) has ended although nobody closed the connection and the last datagram it took was a
+    # well-formed response (a datagram that does not parse ends the loop too: outside the property, see F6)
+    loop_gone = None
+    if closed_at is None and sim.final.get("loop") is not None:
+        last = next((log[i][5:] for i in range((crash_at if crash_at is not None else end) - 1, -1, -1) if log[i].startswith("recv ")), None)
+        r = parse_resp(bytes.fromhex(last)) if last not in (None, "-") else None
+        if r is not None:
+            n_stray = 0
+            for i in range((crash_at if crash_at is not None else end) - 1, -1, -1):
+                if log[i].startswith("recv "):
+                    if sim.warn_after.get(i, 0): n_stray += 1
+                    else: break
+                elif not log[i].startswith("wake "): break
+            loop_gone = "the receive loop ended (%s) after taking the well-formed response (call id %d: %s) at op %d%s" % (
+                sim.final["loop"], r[0], r[1], (crash_at if crash_at is not None else end) - 1,
+                ", the %s consecutive response nobody was waiting for" % ordinal(n_stray) if n_stray else "")
     waiting = [c for c in sim.callers if c["sent_id"] is not None and not c["noresp"]]
     # H-ids: calls outstanding at the same time carry distinct ids. The counter is 32 bits wide: below 2^32 - 1 calls on the
     # connection (Nx.C10.few_calls_distinct) a collision is the implementation handing out the id of an outstanding call -
     # the peer cannot tell the two calls apart, one of them gets the other's response or none; beyond, the property's premise fails
-    for a in waiting:
-        for b in waiting:
+    by_id = {}
+    for c in waiting: by_id.setdefault(c["sent_id"], []).append(c)
+    for g in by_id.values():
+        for a, b in (itertools.product(g, g) if len(g) > 1 else ()):
             if a is not b and a["sent_id"] == b["sent_id"] and a["task"] < b["task"]:
                 a_end = a["done_at"] if a["outcome"] is not None else end
                 if b["call_at"] <= a_end and a["call_at"] <= (b["done_at"] if b["outcome"] is not None else end):
@@ -730,7 +756,10 @@ def oracle(sim):
             if c["outcome"] is None:
                 bad.append(("hang-at-entry", "task %d never completed although request() had not even sent" % t))
             elif not (c["outcome"] == "closed" and closed_at is not None and closed_at < c["call_at"]):
-                bad.append(("entry", "task %d: request() ended with %r before sending (closed_at=%r)" % (t, c["outcome"], closed_at)))
+                bad.append(("entry", "task %d: request() ended with %r before sending%s" % (t, c["outcome"],
+                            " (the connection had closed at op %d, after this call was made)" % closed_at if closed_at is not None else
+                            " although nothing had closed the connection: no peer EOF, no local close()/disconnect()/__aexit__ (at the end client.closed = %r, receive loop: %s)" % (
+                                sim.final.get("closed"), sim.final.get("loop") or "running"))))
             continue
         if closed_at is not None and closed_at < c["call_at"]:
             bad.append(("sent-after-close", "task %d sent a request although the client was closed" % t))
@@ -755,9 +784,13 @@ def oracle(sim):
                     "; client started with %d server(s) whose logout hooks are %r, cleanup() is %s" % (len(srv), srv, sim.final.get("cleanup_status")) if srv else "")))
             elif first is not None:
                 bad.append(("hang-answered", "task %d (call id %d) still hangs although its response arrived" % (t, c["sent_id"])))
+            elif loop_gone is not None and sum(1 for k, _ in bad if k == "hang-loop-gone") < 3:
+                bad.append(("hang-loop-gone", "task %d (call id %d) hangs for ever: %s; nothing closed the connection (closed = %d), %d datagram(s) of the peer "
+                            "are still in the transport, nobody will ever take them" % (t, c["sent_id"], loop_gone, sim.final.get("closed", 0), sim.final.get("undelivered", 0))))
         elif c["outcome"] == "closed":
             if closed_at is None or closed_at > c["done_at"]:
-                bad.append(("spurious-closed", "task %d raised 'closed' but nothing closed the connection" % t))
+                bad.append(("spurious-closed", "task %d (call id %d) raised 'closed' at op %d but nothing had closed the connection%s" % (
+                    t, c["sent_id"], c["done_at"], " (the first closure of the run is at op %d)" % closed_at if closed_at is not None else "")))
         else:
             if first != c["outcome"]:
                 # was the call completed by a REQUEST of the peer that happened to carry the same call id?
@@ -782,6 +815,10 @@ def oracle(sim):
     bad += oracle_peer_requests(sim, crash_at)
     note = abort_note(sim)
     return [(k, w + note) for k, w in bad] if note else bad
+
+
+def ordinal(n):
+    return "%d%s" % (n, "th" if 10 <= n % 100 <= 20 else {1: "st", 2: "nd", 3: "rd"}.get(n % 10, "th"))
 
 
 def aborted(c):
@@ -826,6 +863,7 @@ def oracle_addressed(sim, crash_at):
         own = next((i for i in range(c["call_at"] + 1, c["done_at"]) if mine(i)), None)
         want = outcome_at(own) if own is not None else None
         if c["outcome"] == want: continue
+        if len(bad) >= 20: break
         src = next((i for i in range(0, c["done_at"]) if i in addr and addr[i] != t and outcome_at(i) == c["outcome"]), None)
         seq = ", ".join("%s(task %d, id %r)" % ("oneway" if q["noresp"] else "call", q["task"], q["sent_id"]) for q in sim.callers)
         if src is not None:
@@ -1026,6 +1064,24 @@ def oracle_pair(msc, sims):
             elif q["outcome"] != want and q["outcome"] != "closed":
                 bad.append((c, "pair-outcome", "%s completed with %r, expected %r" % (what, q["outcome"], want)))
     return bad
+
+
+def describe_history(sc):
+    """the compact steps of a long-history / burst scenario in words"""
+    parts = []
+    for st in sc["steps"]:
+        if st[0] == "churn":
+            parts.append("%d call ids consumed by short-lived traffic (pattern %r: c = call answered ok, e = answered with an error, o = one-way request, "
+                         "O = one-way request the peer answers; %d at a time)" % (st[1], st[2], st[3] if len(st) > 3 else 1))
+        elif st[0] == "strays":
+            n = st[1][2] if st[1] and st[1][0] == "range" else len(st[1])
+            parts.append("%d consecutive responses nobody waits for (ids %s, kinds %r, %s)" % (
+                n, "%d, %d, ..." % (st[1][1], (st[1][1] + st[1][3]) & M32) if st[1][0] == "range" else ",".join(map(str, st[1][:6])) + (",..." if n > 6 else ""),
+                st[2] if len(st) > 2 else "k", "one burst" if not (st[3] if len(st) > 3 else 0) else "%d loop iterations apart" % st[3]))
+        elif st[0] == "start": parts.append("one-way request" if st[1] else "call")
+        elif st[0] in ("ans", "resp"): parts.append("%s %s %s" % ("answer to task" if st[0] == "ans" else "response id", st[1], st[2]))
+        elif st[0] in CLOSE_KINDS: parts.append(st[0])
+    return "counter starts at %d; " % sc.get("start_id", 1) + "; ".join(parts)
 
 
 def render_op(line):
@@ -1326,24 +1382,40 @@ class _S:  # light view of a finished run
 def run_real(scs, par):
     if par <= 1 or len(scs) < 2000:
         return [_S(d) for d in _work(scs)]
-    chunks = [scs[i:i + 1000] for i in range(0, len(scs), 1000)]
+    # scenarios with long histories (tens of thousands of calls each) go to the workers first, one per job
+    heavy = [i for i, sc in enumerate(scs) if c10_long.total_churn(sc) >= 1000]
+    hs = set(heavy)
+    light = [i for i in range(len(scs)) if i not in hs]
+    heavy.sort(key=lambda i: -c10_long.total_churn(scs[i]))
+    jobs = [[i] for i in heavy] + [light[k:k + 500] for k in range(0, len(light), 500)]
     with multiprocessing.get_context("fork").Pool(par) as pool:
-        parts = pool.map(_work, chunks)
-    return [_S(d) for p in parts for d in p]
+        parts = pool.map(_work, [[scs[i] for i in job] for job in jobs], chunksize=1)
+    res = [None] * len(scs)
+    for job, p in zip(jobs, parts):
+        for i, d in zip(job, p): res[i] = _S(d)
+    return res
 
 
 def judge(ctx, sims, drv):
-    lines, spans = [], []
+    # the model replays every op log; the driver is fed in batches of at most ~1.5 million lines (each log starts with `new`)
+    per_sim, lines, group, nlines = [], [], [], 0
+    def flush():
+        nonlocal lines, group
+        if lines:
+            outs = drv.batch(lines)
+            for a, b in group: per_sim.append(outs[a:b])
+        lines, group = [], []
     for sim in sims:
         ml = model_lines(sim)
-        spans.append((len(lines), len(lines) + len(ml)))
+        if lines and len(lines) + len(ml) > 1500000: flush()
+        group.append((len(lines), len(lines) + len(ml)))
         lines += ml
-    outs = drv.batch(lines)
+        nlines += len(ml)
+    flush()
     n_diff = 0
     first_diff = None
     worst = {}      # violation key -> (size of the scenario, what, replay): the smallest failing scenario is reported
-    for sim, (a, b) in zip(sims, spans):
-        o = outs[a:b]
+    for sim, o in zip(sims, per_sim):
         diffs, flags = compare(sim, o)
         bad = oracle(sim)
         fam = sim.sc.get("fam", "")
@@ -1361,16 +1433,23 @@ def judge(ctx, sims, drv):
         for key, why in bad:
             size = (len(sim.callers), len(sim.sc["steps"]))
             if key not in worst or size < worst[key][0]:
-                worst[key] = (size, "RMCClient: " + why,
-                              {"scenario": sim.sc, "oplog": sim.oplog, "callers": [{k: (v.hex() if isinstance(v, bytes) else v) for k, v in c.items()} for c in sim.callers],
-                               "final": sim.final, "model": o, "model_diffs": diffs,
+                named = {int(x) for x in re.findall(r"tasks? (\d+)", why)} | {int(x) for x in re.findall(r"and (\d+) are outstanding", why)}
+                big = len(sim.oplog) > 6000
+                def cut(l): return l if not big else {"length": len(l), "first": l[:30], "last": l[-30:]}
+                worst[key] = (size, "RMCClient: " + why + (" [history: " + describe_history(sim.sc) + "]" if "long" in sim.sc or "burst" in sim.sc else ""),
+                              {"scenario": sim.sc, "oplog": cut(sim.oplog),
+                               "callers": [{k: (v.hex() if isinstance(v, bytes) else v) for k, v in c.items()} for c in sim.callers
+                                           if not big or c["task"] in named or (c["outcome"] is None and len(named) < 40 and not named.add(c["task"]))],
+                               "callers_total": len(sim.callers),
+                               "final": sim.final if not big else {k: (v if not isinstance(v, list) or len(v) < 60 else v[:60] + ["..."]) for k, v in sim.final.items()},
+                               "model": cut(o), "model_diffs": diffs[:40],
                                "how": "harness/corr_C10.py replay(): rmc_client_sim.run_many([scenario]) then oracle()"})
         if diffs:
             n_diff += 1
             if first_diff is None: first_diff = (sim, o, diffs)
     for key in sorted(worst):
         ctx.violation("c10:" + key, worst[key][1], worst[key][2])
-    return n_diff, first_diff, len(lines)
+    return n_diff, first_diff, nlines
 
 
 def run(ctx):
@@ -1402,16 +1481,35 @@ def run(ctx):
                 "calls x 0..1 calls answered before the failure x every order of the peer's answers to the surviving requests (sampled beyond 6 orders in quick), "
                 "cancellation during a slow send / while waiting for the response, two callers failing, closures, random mixes (`abort t` in the model). "
                 "In every family two calls outstanding at the same time under one call id (fewer than 2^32 - 1 calls made) is itself a violation. "
+                "Long histories: 1..8 calls stay outstanding while N further call ids are consumed on the connection by short calls of other tasks "
+                "(answered with success / error), one-way requests and one-way requests the peer answers, 1..16 at a time, N in {1, 2, 5, 17, 100, 255..257, "
+                "511, 513, 1000, 1023..1025, 2048, 4095..4097, 5000, 70000} (thorough: also 8193, 32769, 65535..65537, 140000), counter from 1 / wrapping "
+                "at 2^32 inside the history / around 2^16 and 2^31, then their responses arrive in any order (by addressee or by id) / the connection "
+                "closes in every way / some are answered and then it closes, then 1..3 further calls; bursts of B consecutive responses nobody waits "
+                "for, B in {1..3, 7..10, 15..17, 31..33, 63..65, 100, 127..129, 255..257, 1000, 1024, 1025} (thorough: 4096, 4097, 70000): duplicates of "
+                "completed calls, ids of one-way requests, never-issued ids (the next ids of the counter, far ids, 0, 2^32-1, one id repeated), success / "
+                "empty success / error / error without bit 31, as one burst / spaced out / cut into runs by the genuine responses or by short calls, on a "
+                "connection that never made a call, after all calls completed, with 1..3 calls outstanding, followed by the genuine responses, further "
+                "calls, a second burst and another call, or a closure with a call unanswered. "
                 "Each run's op log is replayed through the Lean model; a case counts as distinct non-trivial per distinct "
                 "scenario with at least one call")
     ctx.assumptions.append("anyio/asyncio wake a task whose Event was set and run the code between two awaits atomically (trusted runtime); "
                            "a send() that raises / a cancelled caller is the model's `abort` (the frame is discarded, the object untouched); a send() of an "
                            "ANSWER to a peer's request (handle_request) that raises is not modelled")
+    import time
+    t0 = time.time(); phases = ctx.extra["phase_seconds"] = {}
     scs = gen_scenarios(ctx)
+    scs_long = c10_long.gen_long(ctx) + c10_long.gen_bursts(ctx)
     par = min(16, os.cpu_count() or 1)
-    sims = run_real(scs, par if ctx.tier != "quick" else min(par, 8))
+    sims = run_real(scs + scs_long, par if ctx.tier != "quick" else min(par, 8))
+    ctx.extra["long_history_scenarios"] = sum(1 for sc in scs_long if "long" in sc)
+    ctx.extra["long_history_call_ids_consumed_while_a_call_is_outstanding"] = sorted({sc["long"] for sc in scs_long if "long" in sc})
+    ctx.extra["burst_scenarios"] = sum(1 for sc in scs_long if "burst" in sc)
+    ctx.extra["burst_lengths"] = sorted({sc["burst"] for sc in scs_long if "burst" in sc})
+    phases["generate+run single-connection scenarios"] = round(time.time() - t0, 1); t0 = time.time()
     drv = ctx.driver()
     n_diff, first, nlines = judge(ctx, sims, drv)
+    phases["model replay + oracle, single-connection"] = round(time.time() - t0, 1); t0 = time.time()
     ctx.traces_validated = len(sims)
     ctx.extra["scenarios"] = len(sims)
     ctx.extra["model_lines"] = nlines
@@ -1423,7 +1521,9 @@ def run(ctx):
     # several live connections in one process
     mscs = gen_multi(ctx, scs) + gen_pairs(ctx)
     runs = run_real_multi(mscs, par)
+    phases["generate+run multi-connection processes"] = round(time.time() - t0, 1); t0 = time.time()
     m_diff, m_first, m_lines, n_overlap, n_conn = judge_multi(ctx, mscs, runs, drv)
+    phases["model replay + oracle, multi-connection"] = round(time.time() - t0, 1)
     ctx.traces_validated += n_conn
     ctx.extra["multi_connection_processes"] = len(runs)
     ctx.extra["multi_connection_connections"] = n_conn
